@@ -1012,8 +1012,10 @@ func (c *Context) Exp(d, x *Decimal) (Condition, error) {
 		// This algorithm doesn't work if currentprecision*23 < |x|. Attempt to
 		// increase the working precision if needed as long as it isn't too large. If
 		// it is too large, don't bump the precision, causing an early overflow return.
-		if ncp := f / 23; ncp > float64(cp) && ncp < 1000 {
-			cp = uint32(math.Ceil(ncp))
+		if ncp := f / 23; ncp >= float64(cp) && ncp < 1000 {
+			// f is |x| rounded to a float64, which may be slightly below |x|:
+			// compare with >= and take one more than the ceiling.
+			cp = uint32(math.Ceil(ncp)) + 1
 		}
 	}
 	var tmp2 Decimal
